@@ -30,11 +30,16 @@ Step ==
         /\ PushBegin(ev.p, ev.seqs, ev.kind) /\ UNCHANGED <<l, div, taint, devAll, pend>>
      ELSE IF ev.op = "repush" /\ eres = "" THEN
         /\ RePush(ev.b) /\ UNCHANGED <<l, div, taint, devAll, pend>>
-     ELSE IF ev.op \in {"push", "repush"} /\ eres # "" /\ todo # <<>> THEN
+     ELSE IF ev.op = "minetrunc" /\ eres = "" /\ ptr # ltip THEN      \* the round first walks the state to the ledger tip
+        /\ Tick /\ UNCHANGED <<l, div, pend>> /\ devAll' = devAll \cup dev' /\ taint' = (dev' # {})
+     ELSE IF ev.op = "minetrunc" /\ eres = "" THEN
+        /\ ETruncBegin(ev.d, IF ev.res = "ok" THEN ev.txs ELSE <<"*">>, Range(ev.obs.pool) \cup Range(ev.txs))
+        /\ UNCHANGED <<l, div, taint, devAll, pend>>
+     ELSE IF ev.op \in {"push", "repush", "minetrunc"} /\ eres # "" /\ todo # <<>> THEN
         /\ Micro /\ UNCHANGED <<l, div, pend>> /\ devAll' = devAll \cup dev' /\ taint' = (dev' # {})
-     ELSE IF ev.op \in {"push", "repush"} /\ eres # "" THEN
+     ELSE IF ev.op \in {"push", "repush", "minetrunc"} /\ eres # "" THEN
         /\ PushEnd /\ pend' = eres /\ UNCHANGED <<l, div, taint, devAll>>
-     ELSE IF ev.op \in {"push", "repush"} THEN      \* after PushEnd: unreachable (pend is set)
+     ELSE IF ev.op \in {"push", "repush", "minetrunc"} THEN      \* after PushEnd: unreachable (pend is set)
         /\ FALSE
      ELSE IF ev.op = "mine" /\ ptr # ltip THEN
         \* the miner first walks the state to the ledger tip (a silent step when it succeeds; a failed walk fails the round)
